@@ -169,6 +169,45 @@ def unit_compose(ctx, rng):
         ctx.disagreement("C11.model.compose", f"Lean composeTables {ans['table']} vs implementation {table}", rep)
 
 
+def deep_twice_case(rng):
+    """depth-3 pattern: a middle solver that itself contains a placed sub-solver is placed twice in the top solver
+    with *different* renamings of a parameter that reaches the innermost block"""
+    counter = [100, 100]
+    leaf = hier.gen_leaf(rng, counter, parametric=True, pnames=("pa",))
+    inner = hier.Node()
+    inner.children.append((leaf, {"pa": "m1"} if rng.random() < 0.7 else {}))
+    inner.expose = [(f"i{k}", 0, p) for k, p in enumerate(leaf.pins)]
+    nm1 = "m1" if inner.children[0][1] else "pa"
+    middle = hier.Node()
+    middle.children.append((inner, {nm1: "m2"} if rng.random() < 0.5 else {}))
+    nm2 = "m2" if middle.children[0][1] else nm1
+    extra = hier.gen_leaf(rng, counter, parametric=True, pnames=("pb",))
+    middle.children.append((extra, {}))
+    ipins = inner.pin_names()
+    middle.links = [(0, ipins[0], 1, extra.pins[0])] if rng.random() < 0.7 else []
+    used = {(0, ipins[0]), (1, extra.pins[0])} if middle.links else set()
+    k = 0
+    for i, ch in enumerate((inner, extra)):
+        for p in ch.pin_names():
+            if (i, p) not in used:
+                middle.expose.append((f"md{k}", i, p))
+                k += 1
+    top = hier.Node()
+    top.children.append((middle, {nm2: "X"}))
+    top.children.append((middle, {nm2: "Y"}))
+    mp = middle.pin_names()
+    if len(mp) >= 1 and rng.random() < 0.6:
+        top.links = [(0, mp[0], 1, mp[0])]
+    usedt = {(0, mp[0]), (1, mp[0])} if top.links else set()
+    k = 0
+    for i in range(2):
+        for p in mp:
+            if (i, p) not in usedt:
+                top.expose.append((f"t{k}", i, p))
+                k += 1
+    return top
+
+
 def run(ctx):
     rng = ctx.subrng("c11")
     n = ctx.budget(150, 2000)
@@ -190,6 +229,13 @@ def run(ctx):
         check(ctx, node, assigns, replay)
     for _ in range(ctx.budget(150, 2000)):
         unit_compose(ctx, rng)
+    for i in range(ctx.budget(40, 400)):
+        node = deep_twice_case(rng)
+        vis = visible(node)
+        assigns = [{}] + [{x: rng.randint(-8, 8) / 8 for x in vis if rng.random() < 0.8} for _ in range(3)]
+        replay = {"tree": hier.describe(node), "assigns": assigns}
+        ctx.case(replay["tree"], tags=["stream:deep-twice"])
+        check(ctx, node, assigns, replay)
 
 
 def replay(ctx, data):
